@@ -1,6 +1,7 @@
 use std::any::Any;
 use std::cell::RefCell;
 use std::collections::HashMap;
+use std::mem::ManuallyDrop;
 use std::rc::Rc;
 use std::sync::Arc;
 
@@ -28,7 +29,12 @@ struct AnchorState {
 }
 
 thread_local! {
-    static STATE: RefCell<AnchorState> = RefCell::new(AnchorState::default());
+    // `ManuallyDrop`: a thread-local without drop glue registers no destructor and therefore stays
+    // usable while the thread is torn down, so a call made from the destructor of a user's own
+    // thread-local behaves like any other call. Nothing is leaked: outside a document scope the
+    // state is always the empty default, which owns no allocation (see `with_document_scope`).
+    static STATE: ManuallyDrop<RefCell<AnchorState>> =
+        ManuallyDrop::new(RefCell::new(AnchorState::default()));
 }
 
 pub(crate) fn with_anchor_context<R>(
